@@ -1,6 +1,9 @@
 import CedarVerif.Lemmas.ManifestCheck
 import CedarVerif.Lemmas.ManifestEnd
+import CedarVerif.Lemmas.ManifestValid
+import CedarVerif.Lemmas.TypecheckPolicy
 import CedarVerif.Thm.C01
+import CedarVerif.Thm.C11
 /-
 C17 — Entity-manifest slicing keeps everything authorization needs.
 
@@ -44,14 +47,39 @@ What is PROVED here:
   * `full_statement_of_fragment` `FullStatement` (with its precise exclusions: typed-False environments, templates, tags,
                                  unknowns, slicer failure exits) holds for every notion of typed AST / conformance such that
                                  typed ASTs are in the fragment and conformance implies `CtxWF`, `SafeOps` (type soundness)
-                                 and `ConfRoots` (trie-directed conformance).
+                                 and `ConfRoots` (trie-directed conformance);
+  * `manifest_sound_valid`       BOTH OBLIGATIONS DISCHARGED FOR THE C03 / C11 NOTIONS: for static policies of the core
+                                 fragment plus extension function calls (`FragE`) accepted by the strict typechecker MODEL of C03 (`checkEnv .strict`) in
+                                 the request's environment and not typed `False` there, every request and store conforming
+                                 to the schema in the sense of C11 (`ConformsRequest`, `StoreConforms`, action entities
+                                 present), a schema as Rust constructs them (`SchemaClosed` = C03's `SchemaWF3` + no open
+                                 entity types):  `isAuthorized req (sliceStore manifest req store) ps = isAuthorized req
+                                 store ps`, where the manifest is computed (analysis + `to_typed`) from the typed ASTs
+                                 `typedAst` — the policy annotated with `typeOf`'s types AND TRANSFORMED WHERE THE
+                                 TYPECHECKER SHORT-CIRCUITS as typecheck.rs does (`a && b` with `a : False` ↦ `a`,
+                                 `a || b` with `a : True` ↦ `a`, `if c …` with `c : True/False` ↦ both branches the taken
+                                 one) — while the ORIGINAL policy is what is evaluated.  Ingredients: `confRoots_all`
+                                 (C11 conformance ⇒ `ConfRoots`, for every trie; Lemmas/ManifestConf.lean), `sim_typed`
+                                 (C03 type soundness `soundM` ⇒ the lazy form `Sim` of `SafeOps` and the semantic facts
+                                 behind the short-circuit transformations; Lemmas/ManifestValid.lean), `eval_sim`
+                                 (soundness of the analysis for an expression and a `Sim`-typed AST of it;
+                                 Lemmas/ManifestEval.lean), `typesUK_typed` (`TypesUK` from `typeOf_cn`).  Remaining side
+                                 conditions: `NoRecOps` (syntactic, on the typed AST: `==` does not compare records,
+                                 `contains` does not look for a record; for every other operator the typing rules force
+                                 non-record operands, `binary_inv`) and `CtxWF` (the context is a map);
+  * `decision_sliced_valid`      the same through C01's characterisation of the decision;
+  * `manifest_sound_valid_accepted`  the same from acceptance of the policies by `checkPolicy .strict` in ALL environments
+                                 (C03's policy-level premise): the request's environment is one of them.
 
-What REMAINS: enlarging `InFrag` (record / set literals, `==` / `contains` on records, extension calls); deriving `SafeOps`
-and `ConfRoots` from C03's type soundness and C11's conformance theorems (`ConfRoots` has a sound executable checker,
-`confRootsB`); the "keeps more entities" half of `slice_monotone`.  `FullStatement` is FALSE for the analysed code outside
-the stated exclusions' complement in two ways found by this check (see `typed_false_environment_breaks_slicing` and
-known_findings.jsonl): request environments in which the typechecker types a policy `False` contribute nothing to the
-manifest although evaluating the policy reads data, and template slots are analysed as the request variable.
+What REMAINS: enlarging the fragment (record / set literals, `==` / `contains` on records; extension calls are covered by
+`manifest_sound_valid` / `eval_sim` but not by the older `InFrag`-based theorems); the "keeps
+more entities" half of `slice_monotone`; `typedAst` is a specification-level definition (Lemmas/ManifestValid.lean, written
+from typecheck.rs; the differential run takes the typed ASTs from Rust and does not diff `typedAst` against them).
+`FullStatement` (whose hypothesis `p.condition = te.erase` restricts it to typed ASTs without short-circuit transformation)
+is FALSE for the analysed code outside the stated exclusions' complement in two ways found by this check (see
+`typed_false_environment_breaks_slicing` and known_findings.jsonl): request environments in which the typechecker types a
+policy `False` contribute nothing to the manifest although evaluating the policy reads data, and template slots are
+analysed as the request variable.
 -/
 namespace Cedar.C17
 open Cedar Cedar.Manifest
@@ -408,6 +436,263 @@ example :
     · refine ⟨by simp [Ex.pol3, InFrag, FragOp], ?_, by simp [Ex.pol3, TypesUK, optUK, TypeUK]⟩
       simp only [Ex.pol3, SafeOps, and_true]
       exact ⟨nonRec_of_check rfl, nonRec_of_check rfl⟩
+  · decide +kernel
+
+/-! ## strictly valid policies, conformant data: the C03 and C11 notions -/
+
+/-- C17 FOR VALID POLICIES AND CONFORMANT DATA (core fragment).  `s` is a schema as Rust constructs them (`SchemaClosed`:
+`SchemaWF3` of C03 + no open entity types), `env` the request environment of `req`; request and store conform to the
+schema in the sense of C11 / C03 (`ConformsRequest`, `StoreConforms`; the store holds the schema's action entities); every
+policy is static, lies in the core fragment (`FragE`: the constructs of `InFrag` and extension function calls), is accepted by the STRICT TYPECHECKER
+MODEL of C03 in `env` and not typed `False` there (for those the property fails — known finding — and Rust analyses no AST).
+The manifest is computed from the policies' typed ASTs (`typedAst`: annotated with `typeOf`'s types and transformed where
+the typechecker short-circuits, as typecheck.rs does), annotated by `to_typed`, and the store is sliced by it.  Then
+authorization of THE ORIGINAL POLICIES over the slice gives the same response — decision, determining policies, erroring
+policies — as over the full store.  Remaining side conditions: `NoRecOps` (`==` does not compare records and `contains`
+does not look for a record, a syntactic condition on the typed AST) and `CtxWF` (the context is a map: unique keys).
+Both obligations of `full_statement_of_fragment` are discharged here: `ConfRoots` by `confRoots_all` (C11 conformance ⇒
+trie-directed conformance, for every trie), `SafeOps` — in its lazy form `Sim` — by `sim_typed` (C03 type soundness). -/
+theorem manifest_sound_valid (s : Schema) (hWF : SchemaClosed s) (env : RequestEnv) (req : Request) (es es' : Entities)
+    (ps : List Policy) (t : RootAccessTrie)
+    (henv : EnvMatches s env req) (hslots : env.principalSlot = none ∧ env.resourceSlot = none)
+    (hreq : ConformsRequest s req) (hst : StoreConforms s es) (hact : Cedar.C03.ActionsPresent s es) (hctx : CtxWF req)
+    (hps : ∀ p, p ∈ ps → p.env = [] ∧ FragE p.condition ∧ NoRecOps (typedAst s env p.condition []) ∧
+      ∃ v, checkEnv .strict s env p.condition = some v ∧ v ≠ .fail ∧ v ≠ .ff)
+    (hm : manifestOfEnvs s ⟨env.principal, env.action, env.resource⟩ (ps.map (fun p => typedAst s env p.condition [])) = .ok t)
+    (hs : sliceStore (some t) req es = .ok es') :
+    isAuthorized req es' ps = isAuthorized req es ps := by
+  obtain ⟨h1, h2, h3, _⟩ := henv
+  have henv : EnvMatches s env req := ⟨h1, h2, h3, ‹_›⟩
+  have hconf : ∀ t0, manifestOfEnvs.go [] (ps.map (fun p => typedAst s env p.condition [])) = .ok t0 →
+      ConfRoots s ⟨env.principal, env.action, env.resource⟩ es req t0 :=
+    fun t0 _ => confRoots_all hWF hst hreq h1.symm h2.symm h3.symm t0
+  have huk : ∀ e, e ∈ ps.map (fun p => typedAst s env p.condition []) → TypesUK e := by
+    intro e he
+    simp only [List.mem_map] at he
+    obtain ⟨p, hp, e1⟩ := he
+    subst e1
+    exact typesUK_typed hWF.toSchemaWF3 henv p.condition (hps p hp).2.1 []
+  obtain ⟨hsub, hcov⟩ := slice_of_manifest s _ req es es' _ t hctx huk hm hconf hs
+  have hsem : Cedar.C03.Sem s env ⟨req, es, []⟩ :=
+    ⟨hreq, hst, ⟨fun t ht => (by rw [hslots.1] at ht; cases ht), fun t ht => (by rw [hslots.2] at ht; cases ht)⟩, hact⟩
+  apply isAuthorized_congr
+  intro p hp
+  obtain ⟨hpe, hfrag, hnr, v, hv, hne, _⟩ := hps p hp
+  obtain ⟨r, hr, hc⟩ := hcov (typedAst s env p.condition []) (List.mem_map.2 ⟨p, hp, rfl⟩)
+  -- the typing of the condition
+  have hty : ∃ τ c', typeOf .strict s env p.condition [] = .ok (τ, c') := by
+    unfold checkEnv at hv
+    cases hE : expectOneOf (typeOf .strict s env p.condition []) [boolT] with
+    | error err =>
+      rw [hE] at hv
+      cases err <;> simp at hv
+      exact (hne hv.symm).elim
+    | ok q =>
+      obtain ⟨τ, c'⟩ := q
+      exact ⟨τ, c', (expectOneOf_ok hE).1⟩
+  obtain ⟨τ, c', hty⟩ := hty
+  have hsim := sim_typed hWF.toSchemaWF3.toSchemaWF2 henv hsem p.condition hfrag [] τ c' hty (capsHold_nil _) hnr
+  have h := eval_sim hsub hctx hsim r hr hc
+  rw [outcome_eq_outcomeOf, outcome_eq_outcomeOf, hpe]
+  exact outcome_of_rel h
+
+/-- `manifest_sound_valid` + C01: over the slice, `Allow` is decided exactly when, over the FULL store, some permit is
+satisfied and no forbid is. -/
+theorem decision_sliced_valid (s : Schema) (hWF : SchemaClosed s) (env : RequestEnv) (req : Request) (es es' : Entities)
+    (ps : List Policy) (t : RootAccessTrie)
+    (henv : EnvMatches s env req) (hslots : env.principalSlot = none ∧ env.resourceSlot = none)
+    (hreq : ConformsRequest s req) (hst : StoreConforms s es) (hact : Cedar.C03.ActionsPresent s es) (hctx : CtxWF req)
+    (hps : ∀ p, p ∈ ps → p.env = [] ∧ FragE p.condition ∧ NoRecOps (typedAst s env p.condition []) ∧
+      ∃ v, checkEnv .strict s env p.condition = some v ∧ v ≠ .fail ∧ v ≠ .ff)
+    (hm : manifestOfEnvs s ⟨env.principal, env.action, env.resource⟩ (ps.map (fun p => typedAst s env p.condition [])) = .ok t)
+    (hs : sliceStore (some t) req es = .ok es') :
+    (isAuthorized req es' ps).decision = .allow ↔
+      (∃ p, p ∈ ps ∧ p.effect = .permit ∧ Sat req es p) ∧ ¬ (∃ p, p ∈ ps ∧ p.effect = .forbid ∧ Sat req es p) := by
+  rw [manifest_sound_valid s hWF env req es es' ps t henv hslots hreq hst hact hctx hps hm hs]
+  exact Cedar.C01.allow_iff req es _
+
+/-- `manifest_sound_valid` AT POLICY LEVEL: for static policies of the fragment that the strict typechecker model ACCEPTS
+(`checkPolicy .strict … = some vs`, `accepted vs`: no request environment fails — C03's `strict_validation_sound` premise),
+the environment of a conformant request is one of the environments typechecked (`conformant_request_env`), and if no policy
+is typed `False` in it (and `NoRecOps` holds there), authorization over the store sliced by the manifest of that environment
+equals authorization over the full store. -/
+theorem manifest_sound_valid_accepted (s : Schema) (hWF : SchemaClosed s) (req : Request) (es : Entities) (ps : List Policy)
+    (hreq : ConformsRequest s req) (hst : StoreConforms s es) (hact : Cedar.C03.ActionsPresent s es) (hctx : CtxWF req)
+    (hps : ∀ p, p ∈ ps → p.env = [] ∧ FragE p.condition ∧
+      ∃ vs, checkPolicy .strict s .absent .absent p.condition = some vs ∧ accepted vs = true) :
+    ∃ env, env ∈ s.envs .absent .absent ∧ EnvMatches s env req ∧
+      ∀ (t : RootAccessTrie) (es' : Entities),
+        (∀ p, p ∈ ps → NoRecOps (typedAst s env p.condition []) ∧ checkEnv .strict s env p.condition ≠ some .ff) →
+        manifestOfEnvs s ⟨env.principal, env.action, env.resource⟩ (ps.map (fun p => typedAst s env p.condition [])) = .ok t →
+        sliceStore (some t) req es = .ok es' →
+        isAuthorized req es' ps = isAuthorized req es ps := by
+  obtain ⟨env, hmem, henv, hp, hr⟩ := Cedar.C03.conformant_request_env hreq
+  refine ⟨env, hmem, henv, fun t es' hside hm hs => ?_⟩
+  refine manifest_sound_valid s hWF env req es es' ps t henv ⟨hp, hr⟩ hreq hst hact hctx ?_ hm hs
+  intro p hpm
+  obtain ⟨h1, h2, vs, hcp, hacc⟩ := hps p hpm
+  obtain ⟨v, hv, hvm⟩ := Cedar.C03.checkPolicy_mem hcp hmem
+  have hne : v ≠ .fail := by
+    have := List.all_eq_true.mp hacc _ hvm
+    simpa using this
+  exact ⟨h1, h2, (hside p hpm).1, v, hv, hne, fun e => (hside p hpm).2 (by rw [hv, e])⟩
+
+/-! ### non-vacuity of `manifest_sound_valid`: EVERY hypothesis instantiated
+
+Schema `Ex.schema`; the store of the first example plus the schema's action entity; the three policies of the first example
+a fifth one with extension function calls, and a fourth one with a short-circuited disjunct:
+`(principal is Doc && principal.title == "t") || principal.name == "alice"` — in the environment `(User, view, Doc)` the
+test `principal is Doc` is typed `False`, `principal.title == "t"` is not typechecked (it would not typecheck: `User` has
+no `title`) and is absent from the typed AST; the policy is evaluated in full over the slice. -/
+
+namespace ExV
+def view : EntityUID := ⟨"Action", "view"⟩
+def store : Entities := Ex.store ++ [(view, { attrs := [], ancestors := [], tags := [] })]
+def env : RequestEnv := ⟨"User", view, "Doc", Ex.viewAct.context, none, none⟩
+def cond4 : Expr :=
+  .or (.and (.is (.var .principal) "Doc") (.binaryApp .eq (.getAttr (.var .principal) "title") (.lit (.string "t"))))
+      (.binaryApp .eq (.getAttr (.var .principal) "name") (.lit (.string "alice")))
+/-- `decimal("1.5").lessThan(decimal("2.0")) && principal.age < 40` -/
+def cond5 : Expr :=
+  .and (.call "lessThan" [.call "decimal" [.lit (.string "1.5")], .call "decimal" [.lit (.string "2.0")]])
+       (.binaryApp .less (.getAttr (.var .principal) "age") (.lit (.int 40)))
+def policies : List Policy :=
+  [Ex.pol.toPolicy, Ex.pol2.toPolicy, Ex.pol3.toPolicy, ⟨"p3", .permit, cond4, []⟩, ⟨"p4", .permit, cond5, []⟩]
+def tasts : List TExpr := policies.map (fun p => typedAst Ex.schema env p.condition [])
+def manifest : RootAccessTrie :=
+  match manifestOfEnvs Ex.schema ⟨env.principal, env.action, env.resource⟩ tasts with | .ok t => t | .error _ => []
+def sliced : Entities := match sliceStore (some manifest) Ex.req store with | .ok es => es | .error _ => []
+
+end ExV
+
+theorem exV_schemaWF2 : Cedar.C03.SchemaWF2 Ex.schema where
+  et_mono := by
+    intro T et h
+    have hm := Cedar.C03.entityType?_mem' h
+    simp only [Ex.schema, List.mem_cons, Prod.mk.injEq, List.not_mem_nil, or_false] at hm
+    rcases hm with ⟨rfl, rfl⟩ | ⟨rfl, rfl⟩ | ⟨rfl, rfl⟩
+    · exact ⟨rfl, fun t ht => by simp [Ex.docTy] at ht⟩
+    · exact ⟨rfl, fun t ht => by simp [Ex.groupTy] at ht⟩
+    · exact ⟨rfl, fun t ht => by simp [Ex.userTy] at ht⟩
+  act_wf := by
+    intro u a h
+    have hm := Cedar.C03.action?_mem h
+    simp only [Ex.schema, List.mem_cons, Prod.mk.injEq, List.not_mem_nil, or_false] at hm
+    obtain ⟨rfl, rfl⟩ := hm
+    exact ⟨rfl, rfl⟩
+  no_action_etype := by
+    intro T hT
+    cases h : Ex.schema.entityType? T with
+    | none => rfl
+    | some et =>
+      have hm := Cedar.C03.entityType?_mem' h
+      simp only [Ex.schema, List.mem_cons, Prod.mk.injEq, List.not_mem_nil, or_false] at hm
+      rcases hm with ⟨rfl, _⟩ | ⟨rfl, _⟩ | ⟨rfl, _⟩ <;> exact absurd hT (by decide)
+  ets_map := by
+    intro p hp
+    simp only [Ex.schema, List.mem_cons, List.not_mem_nil, or_false] at hp
+    rcases hp with rfl | rfl | rfl <;> rfl
+  act_type := by
+    intro u a h
+    have hm := Cedar.C03.action?_mem h
+    simp only [Ex.schema, List.mem_cons, Prod.mk.injEq, List.not_mem_nil, or_false] at hm
+    obtain ⟨rfl, _⟩ := hm
+    decide
+  act_anc_desc := by
+    intro u a h p hp
+    have hm := Cedar.C03.action?_mem h
+    simp only [Ex.schema, List.mem_cons, Prod.mk.injEq, List.not_mem_nil, or_false] at hm
+    obtain ⟨rfl, rfl⟩ := hm
+    simp [Ex.viewAct] at hp
+  act_desc_anc := by
+    intro u a h d hd
+    have hm := Cedar.C03.action?_mem h
+    simp only [Ex.schema, List.mem_cons, Prod.mk.injEq, List.not_mem_nil, or_false] at hm
+    obtain ⟨rfl, rfl⟩ := hm
+    simp [Ex.viewAct] at hd
+
+theorem exV_schemaClosed : SchemaClosed Ex.schema where
+  toSchemaWF2 := exV_schemaWF2
+  et_cn := by
+    intro T et h
+    have hm := Cedar.C03.entityType?_mem' h
+    simp only [Ex.schema, List.mem_cons, Prod.mk.injEq, List.not_mem_nil, or_false] at hm
+    rcases hm with ⟨rfl, rfl⟩ | ⟨rfl, rfl⟩ | ⟨rfl, rfl⟩
+    · exact ⟨rfl, fun t ht => by simp [Ex.docTy] at ht⟩
+    · exact ⟨rfl, fun t ht => by simp [Ex.groupTy] at ht⟩
+    · exact ⟨rfl, fun t ht => by simp [Ex.userTy] at ht⟩
+  act_cn := by
+    intro u a h
+    have hm := Cedar.C03.action?_mem h
+    simp only [Ex.schema, List.mem_cons, Prod.mk.injEq, List.not_mem_nil, or_false] at hm
+    obtain ⟨rfl, rfl⟩ := hm
+    decide
+  acts_map := by
+    intro p hp
+    simp only [Ex.schema, List.mem_cons, List.not_mem_nil, or_false] at hp
+    subst hp
+    rfl
+  et_closed := by
+    intro T et h
+    have hm := Cedar.C03.entityType?_mem' h
+    simp only [Ex.schema, List.mem_cons, Prod.mk.injEq, List.not_mem_nil, or_false] at hm
+    rcases hm with ⟨rfl, rfl⟩ | ⟨rfl, rfl⟩ | ⟨rfl, rfl⟩ <;> rfl
+
+theorem exV_request_conforms : ConformsRequest Ex.schema Ex.req :=
+  (Cedar.C11.checkRequest_iff _ _).mp ((ok_iff_isOkB _).mpr (by decide +kernel))
+
+theorem exV_store_conforms : StoreConforms Ex.schema ExV.store := by
+  intro uid d h
+  have hm := Cedar.C03.entities_find?_mem h
+  simp only [ExV.store, Ex.store, List.cons_append, List.nil_append, List.mem_cons, Prod.mk.injEq, List.not_mem_nil, or_false] at hm
+  rcases hm with ⟨rfl, rfl⟩ | ⟨rfl, rfl⟩ | ⟨rfl, rfl⟩ | ⟨rfl, rfl⟩ | ⟨rfl, rfl⟩ <;>
+    exact (Cedar.C11.checkEntity_iff Ex.schema (by decide +kernel) _ _).mp ((ok_iff_isOkB _).mpr (by decide +kernel))
+
+theorem exV_actions_present : Cedar.C03.ActionsPresent Ex.schema ExV.store := by
+  intro u a h
+  have hm := Cedar.C03.action?_mem h
+  simp only [Ex.schema, List.mem_cons, Prod.mk.injEq, List.not_mem_nil, or_false] at hm
+  obtain ⟨rfl, _⟩ := hm
+  exact ⟨_, rfl⟩
+
+/-- the typed AST of the fourth policy: the right operand of the `&&` whose left operand is typed `False` is gone; the
+slice keeps `alice` (with her requested ancestor) and the document's owner attribute only -/
+example : (typedAst Ex.schema ExV.env ExV.cond4 []).erase =
+      .or (.is (.var .principal) "Doc") (.binaryApp .eq (.getAttr (.var .principal) "name") (.lit (.string "alice"))) ∧
+    ExV.sliced.map (·.1) = [Ex.doc, Ex.alice] := by
+  constructor
+  · rfl
+  · decide +kernel
+
+example : isAuthorized Ex.req ExV.sliced ExV.policies = isAuthorized Ex.req ExV.store ExV.policies ∧
+    (isAuthorized Ex.req ExV.store ExV.policies).reasons = ["p0", "p2", "p3", "p4"] := by
+  constructor
+  · have hm : manifestOfEnvs Ex.schema ⟨ExV.env.principal, ExV.env.action, ExV.env.resource⟩
+        (ExV.policies.map (fun p => typedAst Ex.schema ExV.env p.condition [])) = .ok ExV.manifest := by
+      obtain ⟨t, ht⟩ := ok_of_check (r := manifestOfEnvs Ex.schema ⟨ExV.env.principal, ExV.env.action, ExV.env.resource⟩ ExV.tasts)
+        (by decide +kernel)
+      have : ExV.manifest = t := by simp only [ExV.manifest, ht]
+      rw [this]; exact ht
+    have hs : sliceStore (some ExV.manifest) Ex.req ExV.store = .ok ExV.sliced := by
+      obtain ⟨x, hx⟩ := ok_of_check (r := sliceStore (some ExV.manifest) Ex.req ExV.store) (by decide +kernel)
+      have : ExV.sliced = x := by simp only [ExV.sliced, hx]
+      rw [this]; exact hx
+    refine manifest_sound_valid Ex.schema exV_schemaClosed ExV.env Ex.req ExV.store ExV.sliced ExV.policies ExV.manifest
+      ⟨rfl, rfl, rfl, Ex.viewAct, rfl, rfl⟩ ⟨rfl, rfl⟩ exV_request_conforms exV_store_conforms exV_actions_present
+      (ctxWF_of_check _ (by decide +kernel)) ?_ hm hs
+    intro p hp
+    simp only [ExV.policies, List.mem_cons, List.not_mem_nil, or_false] at hp
+    rcases hp with e | e | e | e | e <;> subst e
+    · exact ⟨rfl, by simp [TPolicy.toPolicy, Ex.pol, Ex.cond, TExpr.erase, FragE, FragOp],
+        noRecOpsB_sound _ (by decide +kernel), .bool, by decide +kernel, by decide, by decide⟩
+    · exact ⟨rfl, by simp [TPolicy.toPolicy, Ex.pol2, TExpr.erase, FragE, FragOp],
+        noRecOpsB_sound _ (by decide +kernel), .bool, by decide +kernel, by decide, by decide⟩
+    · exact ⟨rfl, by simp [TPolicy.toPolicy, Ex.pol3, TExpr.erase, FragE, FragOp],
+        noRecOpsB_sound _ (by decide +kernel), .bool, by decide +kernel, by decide, by decide⟩
+    · exact ⟨rfl, by simp [ExV.cond4, FragE, FragOp],
+        noRecOpsB_sound _ (by decide +kernel), .bool, by decide +kernel, by decide, by decide⟩
+    · exact ⟨rfl, by simp [ExV.cond5, FragE, FragEList, FragOp],
+        noRecOpsB_sound _ (by decide +kernel), .bool, by decide +kernel, by decide, by decide⟩
   · decide +kernel
 
 /-! ## the full statement -/
